@@ -8,8 +8,10 @@
      timestamppb.New / AsTime, durationpb.New / AsDuration   (the arithmetic only)
      physical/expression.go + physical/physical.go           what encoding/json keeps of an Expression
      octosql/types.go                                        Type.Is / Equals, NonNullable
-   Trusted (not modelled): protobuf's and encoding/json's own byte encodings, gRPC.  What they are assumed to
-   do is written down as [wire_ok] (proto3 refuses strings that are not UTF-8) and [json_value]. *)
+   Trusted (not modelled): protobuf's and encoding/json's own byte encodings, gRPC.  What protobuf is assumed to
+   do with a message is written down as [pvalue_wire_ok] / [ptype_wire_ok] (proto3 refuses strings that are not
+   UTF-8, everything else arrives unchanged) and tied by the differential run; encoding/json is assumed to carry a
+   predicate's constants unchanged (the harness generates JSON-safe constants and re-checks that they arrive). *)
 From Octo Require Export Values.
 
 (* ------------------------------------------------------------------------------------------------ *)
